@@ -66,7 +66,13 @@ def check(ctx):
                     bad.add("a component with will_reset_to markers is not given its defaults at creation / not registered for the per-iteration reset")
                 for x in app:
                     pair = x[2][1]
-                    ok = isinstance(pair, tuple) and len(pair) == 2 and "collect_resets" in getattr(pair[0], "path", "") and upd and upd[0][2].args and upd[0][2].args[0] is pair[0]
+                    # the record may be a tuple, a NamedTuple or an instance of a repository class: what matters is
+                    # that it holds the defaults that were applied at creation and the component they were applied to
+                    leaves = list(pair) if isinstance(pair, tuple) else (list(pair.fields.values()) if hasattr(pair, "fields") and not hasattr(pair, "path") else [])
+                    applied = upd[0][2].args[0] if upd and upd[0][2].args else None
+                    has_defaults = applied is not None and "collect_resets" in getattr(applied, "path", "") and sum(1 for l in leaves if l is applied) == 1
+                    has_comp = bool(upd) and sum(1 for l in leaves if getattr(l, "path", None) is not None and l.path + ".__dict__.update" == upd[0][1]) == 1
+                    ok = len(leaves) == 2 and has_defaults and has_comp
                     checked += 1
                     if not ok:
                         bad.add(f"the stored reset pair is {pair!r}: expected (defaults from collect_resets(type(component)), component)")
